@@ -21,6 +21,8 @@ enum { TMCG_EXC_none = 0, TMCG_EXC_invalid_argument = 1, TMCG_EXC_runtime_error 
        TMCG_EXC_out_of_range = 3, TMCG_EXC_length_error = 4, TMCG_EXC_bad_alloc = 5 };
 int __tmcg_thrown;
 
+typedef struct gcry_mpi *gcry_mpi_t;
+typedef unsigned int gcry_error_t;
 /* ---- libgcrypt randomness levels ---------------------------------------- */
 enum gcry_random_level { GCRY_WEAK_RANDOM = 0, GCRY_STRONG_RANDOM = 1, GCRY_VERY_STRONG_RANDOM = 2 };
 
